@@ -130,17 +130,18 @@ func (g *Gateway) Recv(f Frame) []Frame {
 			g.send(&out, &knxnet.ConnRes{Channel: 0, Status: knxnet.ErrConnectionType})
 		}
 	case *knxnet.ConnStateReq:
-		if g.Connected && int(s.Channel) == g.Chan {
-			switch g.HbPolicy {
-			case "ok":
+		// fault policies apply whatever the connection state (as NetToGwFault of the specification)
+		switch g.HbPolicy {
+		case "ok":
+			if g.Connected && int(s.Channel) == g.Chan {
 				g.send(&out, &knxnet.ConnStateRes{Channel: s.Channel, Status: knxnet.NoError})
-			case "err":
-				g.send(&out, &knxnet.ConnStateRes{Channel: s.Channel, Status: knxnet.ErrCode(g.HbStatus)})
-			case "foreign":
-				g.send(&out, &knxnet.ConnStateRes{Channel: s.Channel + 100, Status: knxnet.NoError})
+			} else {
+				g.send(&out, &knxnet.ConnStateRes{Channel: s.Channel, Status: knxnet.ErrConnectionID})
 			}
-		} else if g.HbPolicy != "silent" {
-			g.send(&out, &knxnet.ConnStateRes{Channel: s.Channel, Status: knxnet.ErrConnectionID})
+		case "err":
+			g.send(&out, &knxnet.ConnStateRes{Channel: s.Channel, Status: knxnet.ErrCode(g.HbStatus)})
+		case "foreign":
+			g.send(&out, &knxnet.ConnStateRes{Channel: s.Channel + 7, Status: knxnet.NoError})
 		}
 	case *knxnet.DiscReq:
 		if g.Connected && int(s.Channel) == g.Chan {
